@@ -19,11 +19,14 @@ if [ -z "$demo" ] && [ -d _out/$k/demo ]; then
   git status --short | grep -v _out
   exit 0
 fi
-if [ -n "$demo" ]; then cp $demo slog/zz_demo_seed_test.go; fi
-if [ -n "$demo" ]; then (cd slog && go test -vet=off -count=1 -run "$pat" . >/tmp/seed_with.txt 2>&1); w=$?; else w=99; fi
-rm -f slog/zz_demo_seed_test.go
+DD=slog
+if [ -n "$demo" ] && grep -q "^package times" $demo; then DD=slog/internal/times; fi
+keep=$(grep -o "c18_demo_test.go" _out/$k/RUN.txt | head -1); DN=${keep:-zz_demo_seed_test.go}
+if [ -n "$demo" ]; then cp $demo $DD/$DN; fi
+if [ -n "$demo" ]; then (cd $DD && go test -vet=off -count=1 -run "$pat" . >/tmp/seed_with.txt 2>&1); w=$?; else w=99; fi
+rm -f $DD/$DN
 (go test -vet=off -count=1 ./... >/tmp/seed_suite.txt 2>&1 && cd tests && go test -vet=off -count=1 ./... >>/tmp/seed_suite.txt 2>&1); s=$?
 git checkout -q -- slog
-if [ -n "$demo" ]; then cp $demo slog/zz_demo_seed_test.go; (cd slog && go test -vet=off -count=1 -run "$pat" . >/tmp/seed_without.txt 2>&1); wo=$?; rm -f slog/zz_demo_seed_test.go; else wo=99; fi
+if [ -n "$demo" ]; then cp $demo $DD/$DN; (cd $DD && go test -vet=off -count=1 -run "$pat" . >/tmp/seed_without.txt 2>&1); wo=$?; rm -f $DD/$DN; else wo=99; fi
 echo "pattern=$pat demo_with_change_exit=$w suite_with_change_exit=$s demo_without_change_exit=$wo"
 git status --short | grep -v _out
